@@ -57,6 +57,9 @@ fn main() {
             slow.lock().unwrap().push((t.elapsed().as_secs_f64(), format!("vint#{c}")));
         }
     });
+    let rep5 = run_cases(&ctx, "single-segment", ctx.scale(40, 1500) as u64, |c, rng, rep| {
+        indexcase::single_segment_case(c, rng, rep, deep);
+    });
     // the concurrent stream runs its own 4-8 threads per case: few cases side by side
     let mut cctx = ctx.clone();
     cctx.threads = ctx.threads.min(3);
@@ -75,6 +78,7 @@ fn main() {
     rep.merge(rep2);
     rep.merge(rep3);
     rep.merge(rep4);
+    rep.merge(rep5);
     if std::env::var("C09_DEBUG").is_ok() {
         for (k, v) in &rep.sets {
             eprintln!("set {k}: {:?}", v.iter().take(40).collect::<Vec<_>>());
@@ -84,7 +88,7 @@ fn main() {
         &ctx,
         rep,
         "a case = one family of doc stores (store stream: 1-3 fresh stores + possibly one combined by stack/copy/re-serialise; \
-         index stream: 1-4 committed segments + 1-2 merges). Every store is read back completely through iter() with each cache \
+         index stream: 1-4 committed segments + 1-2 merges; single-segment stream: one index written by SingleSegmentIndexWriter). Every store is read back completely through iter() with each cache \
          size and through get()/Searcher::doc in adversarial orders. A store is non-trivial when it has >= 2 blocks (by the \
          replayed block-cutting rule) and >= 2 docs and every comparison passed; distinct = (origin, compressor, block-size \
          class, block-count class, dedicated thread)",
